@@ -152,9 +152,10 @@ GenFilter(n, ser, life, wk, tk, xk, pre, pretr, ro, nl) ==
                  /\ \A v \in 1 .. n : pre[v] \in {"none", "intact_old", "corrupt_old"})
            \/ (n = 1 /\ xk \in {"untrash", "empty"} /\ wk \in {"none", "put", "touch"} /\ ~ser /\ life = 2
                  /\ pre[1] # "intact_young" /\ pretr[1] # "none")
-           \/ (xk = "index" /\ wk \in {"none", "put", "pull"} /\ tk \in {"none", "delete"} /\ ~ser /\ life = 2
+           \/ (n = 1 /\ xk = "index" /\ wk \in {"none", "put", "pull"} /\ tk \in {"none", "delete"} /\ ~ser /\ life = 2
                  /\ \A v \in 1 .. n : pre[v] # "intact_young" /\ pretr[v] # "expired")
-           \/ (xk = "none" /\ wk \in {"pull", "pull_any"} /\ tk \in {"delete", "list_eq"} /\ ~ser /\ life = 2 /\ notr
+           \/ ((n = 1 \/ wk = "pull") /\ xk = "none" /\ wk \in {"pull", "pull_any"} /\ tk \in {"delete", "list_eq"}
+                 /\ ~ser /\ life = 2 /\ notr
                  /\ \A v \in 1 .. n : pre[v] # "intact_young")
       [] OTHER -> TRUE
 
